@@ -43,6 +43,14 @@ inductive Obs where
   | panic
   deriving Repr, DecidableEq
 
+/-- What C11 quantifies over: amounts are non-negative (any size, also above the free or used
+space); a request is a Go `int`, the page size a positive one. -/
+def OpOk : Op → Prop
+  | .new req page => 0 < page ∧ page ≤ 9223372036854775807 ∧ -9223372036854775808 ≤ req ∧ req ≤ 9223372036854775807
+  | .claim n | .commit n | .consume n => 0 ≤ n
+  | _ => True
+instance (op : Op) : Decidable (OpOk op) := by cases op <;> unfold OpOk <;> exact inferInstance
+
 /-! ### The physical cells (the mirroring assumption lives here) -/
 
 abbrev Mem := Array UInt8
